@@ -6,6 +6,7 @@ import random
 
 import vlib
 from checks.common import Check
+from checks.dbcommon import cfg_with, is_known, tla_bool
 
 PROP = "C10"
 
@@ -33,25 +34,34 @@ def run(tier, seed):
                              "serde_json"]
     q = tier == "quick"
     pre = "q" if q else "t"
+    # the model follows the status of the listed findings (checks/dbcommon.py)
+    k_name = is_known(PROP, "C10-content-not-bound-to-name")
+    k_dir = is_known(PROP, "C10-nested-immutable-dir")
+    now = {"PerNameOnSuccess": tla_bool(not k_name), "ListNamesCanonical": tla_bool(not k_name),
+           "FindPrefersDirectChild": tla_bool(not k_dir),
+           "ExcuseMisplaced": tla_bool(k_name), "ExcuseDecoy": tla_bool(k_dir)}
+    c.cov["model_constants"] = now
     for u in ("forged", "lists", "dirs"):
-        c.mc("db", "MC_DbVerify", f"MC_DbVerify_{pre}_{u}.cfg", name=u, workers=12, timeout=3000, heap="12g",
-             coverage=(u == "forged"), vacuity=["ChooseDir"] if u == "forged" else None)
-    # the proposed fix (per-name comparison on the success path + canonical names in the served list +
-    # direct-child immutable directory) closes the model without any excuse
-    for u in ("forged",) if q else ("forged", "lists", "dirs"):
-        c.mc("db", "MC_DbVerify", f"MC_DbVerify_fixed_{u}.cfg", name="proposed-fix-" + u, workers=12, timeout=3000,
-             coverage=False)
-    _expect_violation(c, "MC_DbVerify_unexcused.cfg", "known-finding-in-model", "VerifySound",
-                      "membership-only success path (C10-content-not-bound-to-name)")
-    _expect_violation(c, "MC_DbVerify_fix_pername.cfg", "per-name-fix-alone-insufficient", "VerifySound",
-                      "with only the per-name comparison added, a served list with order-preserving renamed "
-                      "entries still gets a shifted directory accepted")
+        c.mc("db", "MC_DbVerify", cfg_with(c, f"MC_DbVerify_{pre}_{u}.cfg", now), name=u, workers=12, timeout=3000,
+             heap="12g", coverage=(u == "forged"), vacuity=["ChooseDir"] if u == "forged" else None)
+    if k_name or k_dir:
+        # the proposed fix (per-name comparison on the success path + only canonical names kept from the served
+        # list + direct-child immutable directory) closes the model without any excuse
+        for u in ("forged",) if q else ("forged", "lists", "dirs"):
+            c.mc("db", "MC_DbVerify", f"MC_DbVerify_fixed_{u}.cfg", name="proposed-fix-" + u, workers=12,
+                 timeout=3000, coverage=False)
+    if k_name:
+        _expect_violation(c, "MC_DbVerify_unexcused.cfg", "known-finding-in-model", "VerifySound",
+                          "membership-only success path (C10-content-not-bound-to-name)")
+        _expect_violation(c, "MC_DbVerify_fix_pername.cfg", "per-name-fix-alone-insufficient", "VerifySound",
+                          "with only the per-name comparison added, a served list with order-preserving renamed "
+                          "entries still gets a shifted directory accepted")
     # GEN
     cases = []
     gens = ["gen_dirs1", "gen_dirs_eq", "gen_lists", "gen_forged"] + ([] if q else ["gen_dirs", "gen_lists2"])
     for gname in gens:
-        g = c.mc("db", "MC_DbVerify", f"MC_DbVerify_{gname}.cfg", name="GEN-" + gname, workers=4, timeout=1800,
-                 coverage=False)
+        g = c.mc("db", "MC_DbVerify", cfg_with(c, f"MC_DbVerify_{gname}.cfg", now), name="GEN-" + gname, workers=4,
+                 timeout=1800, coverage=False)
         cs = vlib.printed_json(g, "CASE")
         if len(cs) < 1000:
             raise vlib.ToolError(f"GEN {gname} produced too few cases")
